@@ -220,12 +220,16 @@ fn cli_case(ctx: &Ctx, st: &mut Stats, text: &str) {
     let Ok((names, want)) = refsem::eval_formula(&ast) else { return };
     let free = ast.free_names();
     let bin = ctx.bin("rsbdd");
-    for mode in ["-m -t", "-m -t -ft", "-m -v"] {
+    // (the last two modes add the benchmark and plot options — with a `gnuplot` stub on the PATH —
+    // which change what is measured, not what is printed)
+    let extra = if text.len() % 2 == 0 { "-m -t -b 2 -g" } else { "-b 1 -g -t -m" };
+    for mode in ["-m -t", "-m -t -ft", "-m -v", extra] {
         st.evals += 1;
-        st.bump(&format!("cli[{}]", mode));
+        st.bump(&format!("cli[{}]", if mode.contains("-g") { "-m -t -b N -g" } else { mode }));
         let mut args = vec![format!("--evaluate={}", text)];
         args.extend(mode.split(' ').map(|s| s.to_string()));
-        let out = cli::run(&bin, &args, None, None, Some((20_000_000, 10_000)), Duration::from_secs(60));
+        let feed = cli::Feed { gnuplot_stub: true, ..Default::default() };
+        let out = cli::run_fed(&bin, &args, None, &feed, None, Some((20_000_000, 10_000)), Duration::from_secs(60));
         let case = json!({"kind": "cli", "text": text, "mode": mode});
         if out.timed_out || out.budget_exceeded() {
             st.bump("cli_out_of_budget(not judged)");
